@@ -830,7 +830,7 @@ def r9(ctx, rep):
     # constant folding indexes the arguments of an operator call by position: only calls of the operator's own arity are folded
     se = syn.fn("static_eval::static_eval_rq_operator", crate="prqlc")
     first_match = next((i for i, x in enumerate(se["body"]["s"]) if x.get("k") == "match" or (x.get("k") == "local" and (x.get("init") or {}).get("k") == "match" and "name" in show(x["init"]["e"]))), None)
-    arity_gate = any(x.get("k") == "if" and x.get("e") is None and _g._diverges(x["t"]) and re.search(r"args\.len\(\) (!=|<|>)", show(x["c"], maxdepth=8))
+    arity_gate = any(x.get("k") == "if" and x.get("e") is None and _g._diverges(x["t"]) and (re.search(r"args\.len\(\) (!=|<|>)", show(x["c"], maxdepth=8)) or re.search(r"(!=|<|>) args\.len\(\)", show(x["c"], maxdepth=8)))
                      for x in se["body"]["s"])
     conds["static-eval-arity"] = arity_gate
     rep.check(arity_gate, "static-eval-arity", "static_eval_rq_operator must return the call unfolded when the number of arguments is not the operator's arity (a function written with `internal` "
